@@ -149,6 +149,19 @@ ADDED = {
     'C20': ' Added: exhaustive small-scope part (1292 configurations), CLI cases with verbosity flags, start-config and unwritable outputs.',
 }
 
+# second batch (multi-site states, user-built groups, golden structures; DESIGN.md §7.4)
+ADDED2 = {
+    'C01': ' Part multi-site: 3e5 states with 2..4 occupied sites (PackedState::initialise) per quick run, copies = union over the sites.',
+    'C02': ' Added: part multi-site (2e5 states with 2..4 occupied sites) and part golden (the 400 hard structures of /verif/golden/hard.json, written by the pinned package, re-read and judged).',
+    'C03': ' Added: part multi-site (1e5 states with 2..4 occupied sites) and part golden (300 stored LJ structures re-read and judged); the oracle places the molecules with its own affine map (only LJ2::energy is taken from the package).',
+    'C04': ' Part multi-site: 3e5 states with 2..4 occupied sites.',
+    'C06': ' Values driven by two basis handles.',
+    'C07': ' The deterministic part also runs at kT = 1e-300, 1e300 and +inf.',
+    'C08': ' Added: part multi-site (400 chains on states with 2..4 occupied sites; a quarter in user-built groups of the square and hexagonal families, where only the cell length may change).',
+    'C11': ' Part multi-site: 5e4 states with 1..6 occupied sites in the built-in groups and in user-built p4, p4mm, c1m1 and hexagonal-family groups (round trip + SVG).',
+    'C18': ' A third of the ratio-path cases also pass a finishing temperature, which must be ignored.',
+}
+
 NOT_YET = {}
 
 def main():
@@ -159,7 +172,7 @@ def main():
         pid = p["id"]
         if pid in CHECKS:
             tech, text, note, ref = CHECKS[pid]
-            text = text + ADDED.get(pid, '')
+            text = text + ADDED.get(pid, '') + ADDED2.get(pid, '')
             checks.append({
                 "property_id": pid,
                 "quick_cmd": f"./check {pid} quick",
